@@ -53,7 +53,8 @@
 #define PF0      (NBC + NRC)
 #define NLONG    6                   /* user classes with long names that differ late or are prefixes of one another */
 #define LG0      (NBC + NRC + NPFX)
-#define NU       (NBC + NRC + NPFX + NLONG)
+#define RC0      (NBC + NRC + NPFX + NLONG)      /* two slots for class objects that are created and deleted per case */
+#define NU       (NBC + NRC + NPFX + NLONG + 2)
 #define MAXINST  256
 
 static void fatal(const char* fmt, ...) {
@@ -318,7 +319,8 @@ static void setup_rt_classes(void) {
   for (int k = 0; k < NRC; k++) {
     struct ucls* u = &U[NBC + k];
     snprintf(rcname[k], sizeof rcname[k], "Rt%03d", k);
-    u->obj = new_type_raw(rcname[k], sizeof(struct RtC), NULL, 0, 0);
+    /* the size a class object records says nothing about its instances: 0 (like CelloEmpty), one member's worth, or the struct */
+    u->obj = new_type_raw(rcname[k], (k & 3) == 3 ? 0 : (k & 3) == 2 ? sizeof(var) : sizeof(struct RtC), NULL, 0, 0);
     u->name = rcname[k];
     u->nmem = 2; u->off[0] = offsetof(struct RtC, m0); u->off[1] = offsetof(struct RtC, m1);
     u->mname[0] = "m0"; u->mname[1] = "m1";
@@ -356,7 +358,7 @@ static void setup_long_classes(void) {
   char* nm[NLONG] = { longname(40, 33, 'a'), longname(40, 33, 'b'), longname(64, -1, 0), longname(100, -1, 0), longname(255, 254, 'a'), longname(255, 254, 'b') };
   for (int k = 0; k < NLONG; k++) {
     struct ucls* u = &U[LG0 + k];
-    u->obj = new_type_raw(nm[k], sizeof(struct RtC), NULL, 0, 0);
+    u->obj = new_type_raw(nm[k], (k & 1) ? 0 : sizeof(struct RtC), NULL, 0, 0);
     u->name = nm[k];
     u->nmem = 2; u->off[0] = offsetof(struct RtC, m0); u->off[1] = offsetof(struct RtC, m1);
     u->mname[0] = "m0"; u->mname[1] = "m1"; u->slot = -1;
@@ -364,6 +366,7 @@ static void setup_long_classes(void) {
     body->m0 = rt_m0; body->m1 = rt_m1;
     u->inst[0] = u->inst[1] = body;
   }
+  U[RC0].name = ""; U[RC0 + 1].name = "";
 }
 
 /* an instance object for class c that differs from U[c].inst[0] (for a built-in class its first member is empty) */
@@ -425,7 +428,8 @@ static var declared(struct tut* t, int c, struct Type** trip) {
   } else r = raw_scan(t->T, U[c].name);
   if (trip) *trip = r;
   if (t->ti >= 0) return r ? r->inst : NULL;
-  for (int i = 0; i < t->n; i++) if (t->comp[i] == c) return t->insts[i];
+  /* a class is identified by its NAME (any class object of that name asks for the same entry) */
+  for (int i = 0; i < t->n; i++) if (t->comp[i] == c || strcmp(U[t->comp[i]].name, U[c].name) == 0) return t->insts[i];
   return NULL;
 }
 
@@ -1294,6 +1298,80 @@ static void interleave_case(int ci, int ep, int mi) {
   if (vf_want_sample()) vf_sample("%s", vf_cur);
 }
 
+
+/*
+** Recycled CLASS objects (classes=1).  A class is a type object too; a run-time class KA named A is created, a type that
+** declares "A" is asked for KA (which memoises KA's address in the entry), KA is deleted and a class KB with ANOTHER name
+** is created - on the same block if the allocator hands it back.  Lookups through KB must be answered by KB's name:
+** absent, or the entry the type declares under that name - never the entry memoised for the dead class.
+*/
+static uint64_t rcl_cases, rcl_same;
+static void cold_user_static(var T);
+static var RCI[2][4 + 2];
+
+static void class_slot(int slot, var K, const char* nm) {
+  struct ucls* u = &U[RC0 + slot];
+  u->obj = K; u->name = nm; u->nmem = 2; u->slot = -1;
+  u->off[0] = offsetof(struct RtC, m0); u->off[1] = offsetof(struct RtC, m1); u->mname[0] = "m0"; u->mname[1] = "m1";
+  struct RtC* body = header_init(RCI[slot], K, AllocStatic);
+  body->m0 = rt_m0; body->m1 = rt_m1;
+  u->inst[0] = u->inst[1] = body;
+}
+
+/* tkind 0: run-time type [A]; 1: run-time type [K10, A]; 2: static E1 = [Print, Pri] with A = "Pri"; 3: static E10 = [Pri, Print].
+   bkind 0: the new class has a name the type does not declare; 1: the name of the OTHER class the type declares */
+static void recycled_class_case(int tkind, int ep1, int bkind, int ep2, int mi, int managed) {
+  static int comp[2], vr0[2]; static var insts[2]; static var ob[4 + 8];
+  if (bkind == 1 && tkind == 0) return;
+  vf_set_cur("recycled-class type=%d ep1=%d b=%d ep2=%d m=%d managed=%d", tkind, ep1, bkind, ep2, mi, managed);
+  if (vf.replay && strcmp(vf.replay, vf_cur) != 0) return;
+  vf_watchdog(60);
+  is_rt = 1; h_restore = 0; rt_count_nontrivial = 1;
+  const char* nameA = tkind >= 2 ? "Pri" : "RcKx";
+  const char* nameB = bkind == 0 ? "RcKy" : tkind >= 2 ? "Print" : "K10";
+  var KA = new_type_raw(nameA, sizeof(struct RtC), NULL, 0, managed);
+  R[1] = KA;
+  class_slot(0, KA, nameA);
+  U[RC0 + 1].name = "";                     /* not in use yet */
+  struct tut t; var T; int n;
+  if (tkind < 2) {
+    n = 0;
+    if (tkind == 1) { comp[n] = find_class("K10"); insts[n] = U[comp[n]].inst[0]; n++; }
+    comp[n] = RC0; insts[n] = U[RC0].inst[0]; n++;
+    T = new_type_raw(rt_tname[0], 40, insts, n, 0);
+    rt_tut(&t, T, rt_tname[0], n, comp, vr0, insts, ob);
+  } else {
+    int si = tkind - 2; T = *SU[si].objp; n = SU[si].n;
+    cold_user_static(T);
+    for (int i = 0; i < n; i++) { comp[i] = PF0 + (strcmp(SU[si].decl[i], "Pri") == 0 ? 3 : 4); insts[i] = rec_triples(T)[2 + i].inst; }
+    rt_tut(&t, T, SU[si].name, n, comp, vr0, insts, ob);
+    t.user_static = 1;
+  }
+  uint64_t c0 = rt_state_changes;
+  HN = 0; push_op(RC0, ep1, 0); push_op(RC0, EP_TIMPL, -1);
+  run_history(&t);                          /* the entry for A now carries KA's address */
+  uintptr_t addr = (uintptr_t)KA;
+  R[1] = NULL;
+  del_type(KA, managed);
+  U[RC0].obj = NULL;                        /* dead: never used for a lookup again (its name stays in the model) */
+  var KB = new_type_raw(nameB, sizeof(struct RtC), NULL, 0, managed);
+  R[1] = KB;
+  int same = (uintptr_t)KB == addr;
+  class_slot(1, KB, nameB);
+  HN = 0; push_op(RC0 + 1, ep2, mi);        /* first lookup through the new class */
+  run_history(&t);
+  HN = 0;
+  for (int e = 0; e < 8; e++) push_op(RC0 + 1, e, e & 1);
+  for (int k = 0; k < NPFX; k++) { push_op(PF0 + k, EP_TINST, -1); push_op(PF0 + k, EP_IMPL, -1); }
+  run_history(&t);
+  R[1] = NULL;
+  del_type(KB, managed);
+  if (tkind < 2) del_raw(T);
+  U[RC0].name = ""; U[RC0 + 1].name = "";
+  rcl_cases++;
+  if (same) { rcl_same++; vf.executions++; vf.states += 1 + (rt_state_changes - c0); if (vf_want_sample()) vf_sample("%s", vf_cur); }
+}
+
 static void mode_recycle(void) {
   vf.phase = "recycle";
   int full = (int)vf_param_i("full", 0);
@@ -1317,6 +1395,18 @@ static void mode_recycle(void) {
       int nmi = ep_has_member(ep) ? (U[c].nmem > 1 ? 2 : 1) : 1;
       for (int k = 0; k < nmi; k++) interleave_case(c, ep, ep_has_member(ep) ? (k == 0 ? 0 : U[c].nmem - 1) : -1);
     }
+  if (vf_param_i("classes", 0)) {
+    for (int tkind = 0; tkind < 4; tkind++)
+      for (int ep1 = 0; ep1 < 8; ep1++)
+        for (int bkind = 0; bkind < 2; bkind++)
+          for (int ep2 = 0; ep2 < 8; ep2++)
+            for (int k = 0; k < (ep_has_member(ep2) ? 2 : 1); k++)
+              for (int mg = 0; mg <= 2; mg += 2)
+                recycled_class_case(tkind, ep1, bkind, ep2, ep_has_member(ep2) ? k : -1, mg);
+    vf_extra("recycled_class_cases", "%" PRIu64, rcl_cases);
+    vf_extra("recycled_class_same_address", "%" PRIu64, rcl_same);
+    if (rcl_cases && !rcl_same) vf_note("the allocator never handed the block of the deleted class object to the next one: recycled-class family established nothing here");
+  } else vf_note("recycled CLASS objects (classes=1) not run: recorded defect proposed/C08-recycled-class-memo.md");
   vf_extra("recycle_cases", "%" PRIu64, rc_cases);
   vf_extra("recycle_same_address", "%" PRIu64, rc_same_addr);
   vf_extra("recycle_other_address", "%" PRIu64, rc_other_addr);
@@ -1330,6 +1420,7 @@ static void mode_recycle(void) {
 
 /* ---- mode=prefix: classes whose names are prefixes of one another ------------------------------------------------ */
 
+static void class_slot(int slot, var K, const char* nm);
 static void cold_user_static(var T) {
   for (int i = 0; i < NCACHE; i++) ((var*)T)[i] = NULL;
   for (struct Type* t = rec_triples(T); t->name; t++) t->cls = NULL;
@@ -1407,6 +1498,53 @@ static void mode_prefix(void) {
     }
   }
   vf_extra("prefix_longname_type_histories", "%" PRIu64, nlg);
+  /* two LIVE class objects with one name: the static class Pri and a run-time class object also named "Pri" (and the
+     same for K10).  Whichever asks first, both must be given the entry the type declares under that name */
+  uint64_t nal = 0;
+  {
+    static int acomp[3]; static var ainsts[3];
+    static const char* an[2] = { "Pri", "K10" };
+    for (int which = 0; which < 2; which++) {
+      int orig = find_class(an[which]);
+      var KA = new_type_raw(an[which], 0, NULL, 0, 0);
+      class_slot(0, KA, an[which]);
+      /* types: 0 run-time [X], 1 run-time [Print, X, K1], 2 run-time without X, 3.. the statically declared ones */
+      for (int tk = 0; tk < 3 + NSU; tk++) {
+        for (int e1 = 0; e1 < 8; e1++) for (int e2 = 0; e2 < 8; e2++) for (int ord = 0; ord < 4; ord++) {
+          vf_set_cur("prefix alias name=%s type=%d ep1=%d ep2=%d order=%d", an[which], tk, e1, e2, ord);
+          if (vf.replay && strcmp(vf.replay, vf_cur) != 0) continue;
+          vf_watchdog(60);
+          struct tut t; var T = NULL; int n = 0;
+          if (tk < 3) {
+            if (tk == 1) { acomp[n] = PF0 + 4; ainsts[n] = U[PF0 + 4].inst[0]; n++; }
+            if (tk != 2) { acomp[n] = orig; ainsts[n] = U[orig].inst[0]; n++; } else { acomp[n] = PF0 + 2; ainsts[n] = U[PF0 + 2].inst[0]; n++; }
+            if (tk == 1) { acomp[n] = PF0; ainsts[n] = U[PF0].inst[0]; n++; }
+            T = new_type_raw(rt_tname[0], 40, ainsts, n, 0);
+            rt_tut(&t, T, rt_tname[0], n, acomp, vr0, ainsts, ob);
+          } else {
+            int si = tk - 3; T = *SU[si].objp; n = SU[si].n;
+            cold_user_static(T);
+            for (int i = 0; i < n; i++) { acomp[i] = find_class(SU[si].decl[i]); if (acomp[i] == RC0) acomp[i] = orig; ainsts[i] = rec_triples(T)[2 + i].inst; }
+            rt_tut(&t, T, SU[si].name, n, acomp, vr0, ainsts, ob);
+            t.user_static = 1;
+          }
+          /* order 0: original, alias; 1: alias, original; 2: o a o; 3: a o a - then both through every entry point */
+          int a0 = (ord & 1) ? RC0 : orig, a1 = (ord & 1) ? orig : RC0;
+          uint64_t c0 = rt_state_changes;
+          HN = 0; push_op(a0, e1, 0); push_op(a1, e2, 1); if (ord >= 2) push_op(a0, e2, 0);
+          for (int e = 0; e < 8; e++) { push_op(orig, e, e & 1); push_op(RC0, (e + 3) % 8, e & 1); }
+          run_history(&t);
+          vf.states += 1 + (rt_state_changes - c0);
+          if (tk < 3) del_raw(T);
+          vf.executions++; nal++;
+          if (vf_want_sample()) vf_sample("%s", vf_cur);
+        }
+      }
+      U[RC0].name = "";
+      del_raw(KA);
+    }
+  }
+  vf_extra("prefix_alias_histories", "%" PRIu64, nal);
   /* statically declared types over the same classes */
   for (int si = 0; si < NSU; si++) {
     var T = *SU[si].objp;
